@@ -18,7 +18,7 @@ NOTES = {
     'C05': 'Model/Pipeline (read thread, parser thread with ParserWithBuffer nesting / PBF blob futures fulfilled by arbitrary workers, consumer with status machine and m_back_buffers; both queues are QueueSM machines of C19); 27 theorems, all WITHOUT a fault hypothesis since round 2: queue_of_futures_order against specAt (= deliver until the parser has passed a blob whose decode throws in a worker, deliverSkipping afterwards), order_in_every_state (also after shutdown, via the unpopped futures), delivered_is_prefix_any_fault (no hypothesis at all), delivered_before_fault (prefix of the objects before the faulty blob), exactly_once_in_order for every well-formed configuration, schedule/pool-size independence, faulty_blob_delivers_prefix_then_error, nested unwinding, mask = filtered subsequence, read_after_eof_fails; direct_* versions for a PBF file read through the fd (simulation). Tie = trace validation of real runs (scheduling validator finds an interleaving of the model consistent with the hook trace) + object-sequence monitor against the single-threaded decode over pool sizes, queue sizes, masks, buffers_type, four formats, blocks whose first object exceeds the initial buffer, undecodable first/middle/last blobs.',
     'C06': 'Model/Wire + Chunks + PbfFraming; theorems for all chunkings (OPL lines, PBF framing, o5m window + dataset loop, XML feed); harness drives the real line_by_line, PBFParser framing functions and O5mParser::ensure_bytes_available (-fno-access-control) and monitors the whole Reader behind a mock decompressor; o5m model = code after fix 4708c02.',
     'C07': 'same Pipeline machine with faults (j-th decompressor read, close, parser before/after header, blob decode in a worker) and an arbitrary client; 25 theorems: header_fulfilled_once, first_error_reported, fault_is_on_its_way, no_data_after_error, closed_reader_reads_nothing_more, no_stuck_state at FULL strength (the six wait-for invariants are now proved for all reachable states), bounded_progress (ranking function), api_call_returns_or_spins, busy_wait_never_forced, api_call_returns_thread_fair (every API call returns under per-thread weak fairness of the scheduler - the only remaining assumption), destructor_joins_all; fd/thread leaks observed by monitors (/proc/self/task, /proc/self/fd) under a 20 s watchdog for every stop point x fault point x queue/pool size; the PBF-file path that reads the fd directly is covered by the monitors only.',
-    'C08': 'Model/WriterSM: OS fault oracle, reliable_write, compressor wrappers over library contracts (GzSpec, BzSpec), writer/pool/write-thread small-step machine; harness interposes write/fsync/close (fopencookie bridge for stdio) and injects faults at every offset.',
+    'C08': 'Model/WriterSM: OS fault oracle, reliable_write, compressor wrappers over library contracts (GzSpec, BzSpec), writer/pool/write-thread small-step machine; harness interposes write/fsync/close (fopencookie bridge for stdio) and injects persistent and transient faults at every offset; all six output formats; the empty-block guards of do_write / do_flush / every write_buffer are read off the source into Generated/C08Guards and the theorems are instantiated with that table (close_ok_all_handed_over_iff_guarded, current_tree_guards); Model/WriterSMQ = lock-granular refinement over the QueueSM of C19; found and repaired: debug/ids empty-block defect (699a6ee).',
     'C09': 'Model/Decomp with zlib/libbz2 as contract parameters; Fixes.all (= code after 20beb73, 0ac7ff4, d74b2ae) is the main line, Fixes.none kept with its refutation witnesses as regression documentation.',
     'C10': 'exact-integer geometry core (segment order, intersection decision, duplicate cancellation, sweep, orientation, permutation invariance) + ring building: m_locations (stable sort spec), find_split_locations (reported open ends = odd-degree nodes, m_split_locations = nodes of degree >= 4), the simple case (add_new_ring loop terminates, rings closed, >= 4 points, PARTITION the segments = even-odd fill, rings = connected components, independent of input order for any find_enclosing_ring), orientation of outer/inner rings, first ring outer, complex-case pieces (add_new_ring_complex + both cutting loops terminate; pieces are chains between split locations and partition the segments): 54 theorems. Not proved: which outer ring find_enclosing_ring picks (double arithmetic; 2 known findings), find_candidates/join_connected_rings search (1 known finding) - judged by the executable Valid/even-odd spec. Tie: `rb` stream prints locations list, split locations, simple-case rings with links and sums, complex pieces from the REAL BasicAssembler (-fno-access-control) and from the model, exact diff.',
     'C11': 'Model/RelMgr; global theorems for all configurations/relation sets/accepted histories: completed_exactly_once (+ at the last member), incomplete_listed, not_in_any_relation_reported, flush_threshold_irrelevant, members_available_in_callback, shared_member_kept_until_last, released_lookup_absent (code after 5127b06; pre-fix witness kept), stored_members_are_needed.',
